@@ -636,6 +636,11 @@ func (r *Runner) replayObl(prop string, rep *HarnessReport, o *Obligation) (stri
 	if len(o.Trace) > 0 {
 		rf.Stream = buildStream(o.Trace, rf.Vars)
 	}
+	if o.RawScript != "" {
+		for k, v := range o.Model {
+			rf.Vars["schedule:"+k] = v
+		}
+	}
 	for _, c := range o.Choices {
 		rf.Choices[c.Name] = c.Val
 	}
